@@ -23,7 +23,11 @@ RULE = ("roundtrip: random univariate equal-length panels (1-6 instances, length
         "loader, the written lines re-parsed by the model inside Coq.  ts_lines: hand-built .ts files "
         "with one structured deviation each (tag case, blank lines, indentation, unknown tags, missing "
         "tag, tag after data, bad Boolean, missing value '?', non-numeric token, multivariate, "
-        "unequal length, ...), model verdict vs loader verdict.  file: every bundled .ts/.arff/.tsv "
+        "unequal length, ...), model verdict vs loader verdict; hand-built and 22 random .arff / .tsv "
+        "files with multi-character labels and multi-digit values.  EVERY such file, every bundled "
+        "excerpt and every written round-trip file is also loaded with its lines terminated "
+        "differently (no final newline, CRLF, CRLF without final newline, trailing blank lines, "
+        "blanks around every line): same parse.  file: every bundled .ts/.arff/.tsv "
         "file, header + first/last instances, model vs loader.  formats: every bundled dataset with "
         ">= 2 formats, all instances compared in Python, excerpts inside Coq.  split: every "
         "load_<dataset>, 3 splits x 2 return forms.  history: per loader 2-6 HISTORIES of 2-4 loader "
@@ -327,12 +331,23 @@ def _flat_variants():
     add("arff_lines", "data-in-relation-name", ["@relation my@data", "1,2,a", "3,4,B"])
     add("arff_lines", "empty", [])
     add("arff_lines", "numeric-labels", A + ["@data", "1,2,1", "3,4,2"])
+    # multi-character labels / multi-digit last values: a character lost at the end of a line shows
+    add("arff_lines", "long-labels", A[:3] + ["@attribute target {alpha,Be2,c_33}", "@data",
+                                               "1.25,20.5,alpha", "3,44.75,Be2", "5,66.125,c_33"])
+    add("arff_lines", "multi-digit-labels", A[:3] + ["@attribute target {10,25,300}", "@data",
+                                                      "1,2,10", "3,4,25", "5,6,300"])
+    v.append({"kind": "arff_lines", "variant": "unlabelled-multi-digit", "labelled": False,
+              "lines": A[:3] + ["@data", "1.5,20.25", "3,44.75", "5,66.125"]})
+    v.append({"kind": "arff_lines", "variant": "unlabelled-integers", "labelled": False,
+              "lines": A[:3] + ["@data", "10,200", "30,400", "50,625"]})
     T = ["1\t1.5\t2\t-3e-2", "2\t4\t5.25\t6", "1\t7\t8\t9"]
     add("tsv_lines", "base", T)
     add("tsv_lines", "blank-lines", [T[0], "", T[1], ""])
     add("tsv_lines", "single", T[:1])
     add("tsv_lines", "negative-labels", ["-1\t1\t2", "1\t3\t4"])
     add("tsv_lines", "exponents", ["0\t1E5\t2.5e-3\t-1.5", "3\t1\t2\t3"])
+    add("tsv_lines", "multi-digit", ["10\t1.25\t20.5\t300.125", "25\t4\t5.25\t66.75",
+                                     "300\t7\t8\t912.5"])
     add("tsv_lines", "long", ["%d\t" % (i % 3) + "\t".join("%.5f" % (i * 0.37 - j * 0.11)
                                                            for j in range(20)) for i in range(6)])
     return v
@@ -418,6 +433,31 @@ def _gen_histories(rng, tier):
     return out
 
 
+def _rand_flat(rng, fmt):
+    """a random univariate labelled panel as .arff / .tsv lines: multi-character labels, values with
+    several digits (so that a character lost anywhere, in particular at the very end, shows)"""
+    n, m = rng.randint(1, 5), rng.randint(1, 6)
+    if fmt == "arff":
+        labels = rng.sample(["alpha", "Be2", "c_33", "10", "25", "300", "x", "Long-Label.7"],
+                            rng.randint(1, 3))
+    else:
+        labels = rng.sample(["1", "2", "10", "25", "300", "-1", "-12"], rng.randint(1, 3))
+    rows = []
+    for _ in range(n):
+        vals = [rng.choice([str(rng.randint(-999, 9999)), "%.3f" % rng.uniform(-500, 500),
+                            "%.2e" % rng.uniform(-1, 1), "%d.5" % rng.randint(10, 99)])
+                for _ in range(m)]
+        lab = rng.choice(labels)
+        rows.append(",".join(vals + [lab]) if fmt == "arff" else "\t".join([lab] + vals))
+    if fmt == "arff":
+        head = ["@relation rnd"] + ["@attribute att%d numeric" % j for j in range(m)] + [
+            "@attribute target {%s}" % ",".join(labels), "@data"]
+        if rng.random() < 0.3:
+            head = ["% a comment line"] + head
+        return {"kind": "arff_lines", "variant": "random", "lines": head + rows}
+    return {"kind": "tsv_lines", "variant": "random", "lines": rows}
+
+
 def gen_cases(rng, tier):
     cases = []
     for _ in range(170 if tier == "quick" else 5000):
@@ -455,6 +495,10 @@ def gen_cases(rng, tier):
         cases.append(dict(base, **extra))
     cases += _ts_variants()
     cases += _flat_variants()
+    for _k in range(14 if tier == "quick" else 200):
+        cases.append(_rand_flat(rng, "arff"))
+    for _k in range(8 if tier == "quick" else 100):
+        cases.append(_rand_flat(rng, "tsv"))
     heavy = []
     files = bundled_files()
     names = {}
@@ -531,13 +575,42 @@ def _canon_ts(res):
             "index": [int(i) for i in X.index]}
 
 
-def _load_ts_lines(lines, tag):
-    from sktime.utils.data_io import load_from_tsfile_to_dataframe
-    p = os.path.join(_tmp(), "%s.ts" % tag)
+# how a text file made of the same lines may be terminated / padded: the parsed panel and labels must
+# not depend on it (universal newlines for the .ts / .arff loaders, pandas for .tsv)
+TERMINATIONS = ["lf-nofinal", "crlf", "crlf-nofinal", "trailing-blank", "spaces"]
+
+
+def _terminated(lines, how):
+    if how == "lf":
+        return "".join(ln + "\n" for ln in lines)
+    if how == "lf-nofinal":
+        return "\n".join(lines)
+    if how == "crlf":
+        return "".join(ln + "\r\n" for ln in lines)
+    if how == "crlf-nofinal":
+        return "\r\n".join(lines)
+    if how == "trailing-blank":
+        return "".join(ln + "\n" for ln in lines) + "\n   \n\n"
+    if how == "spaces":                       # blanks around every line (not for tab-separated files)
+        return "".join("  " + ln + " \n" for ln in lines)
+    raise AssertionError(how)
+
+
+def _load_text(text, fmt, tag, labelled=True):
+    from sktime.utils.data_io import (load_from_arff_to_dataframe, load_from_tsfile_to_dataframe,
+                                      load_from_ucr_tsv_to_dataframe)
+    p = os.path.join(_tmp(), "%s.%s" % (tag, fmt))
     with open(p, "w", encoding="utf-8", newline="") as f:
-        f.write("".join(ln + "\n" for ln in lines))
+        f.write(text)
     try:
-        return {"loaded": _canon_ts(load_from_tsfile_to_dataframe(p))}
+        if fmt == "ts":
+            return {"loaded": _canon_ts(load_from_tsfile_to_dataframe(p))}
+        if fmt == "arff":
+            if not labelled:
+                X = load_from_arff_to_dataframe(p, has_class_labels=False)
+                return {"loaded": _canon_flat((X, []))}
+            return {"loaded": _canon_flat(load_from_arff_to_dataframe(p))}
+        return {"loaded": _canon_flat(load_from_ucr_tsv_to_dataframe(p))}
     except Exception as e:  # every exception family is a rejection of the file
         return {"loaded": None, "load_err": "%s: %s" % (type(e).__name__, str(e)[:160])}
 
@@ -548,16 +621,25 @@ def _canon_flat(res):
     return {"rows": rows, "labels": [str(v) for v in y], "ncols": int(X.shape[1])}
 
 
-def _load_flat_lines(lines, fmt, tag):
-    from sktime.utils.data_io import load_from_arff_to_dataframe, load_from_ucr_tsv_to_dataframe
-    p = os.path.join(_tmp(), "%s.%s" % (tag, fmt))
-    with open(p, "w", encoding="utf-8", newline="") as f:
-        f.write("".join(ln + "\n" for ln in lines))
-    try:
-        fn = load_from_arff_to_dataframe if fmt == "arff" else load_from_ucr_tsv_to_dataframe
-        return {"loaded": _canon_flat(fn(p))}
-    except Exception as e:
-        return {"loaded": None, "load_err": "%s: %s" % (type(e).__name__, str(e)[:160])}
+def _load_lines(lines, fmt, tag, labelled=True):
+    """the file made of these lines, each ended by a newline - and the same lines under every other
+    termination (`variants`: what the loader returns for each)"""
+    out = _load_text(_terminated(lines, "lf"), fmt, tag, labelled)
+    if lines:
+        out["variants"] = {}
+        for how in TERMINATIONS:
+            if how == "spaces" and fmt == "tsv":
+                continue
+            out["variants"][how] = _load_text(_terminated(lines, how), fmt, tag + "_t", labelled)
+    return out
+
+
+def _load_ts_lines(lines, tag):
+    return _load_lines(lines, "ts", tag)
+
+
+def _load_flat_lines(lines, fmt, tag, labelled=True):
+    return _load_lines(lines, fmt, tag, labelled)
 
 
 def _read_lines(path):
@@ -826,11 +908,15 @@ def _run_impl(case):
             out["loaded"] = _canon_ts(load_from_tsfile_to_dataframe(path))
         except Exception as e:
             out["load_err"] = "%s: %s" % (type(e).__name__, str(e)[:160])
+        # the written lines under the other terminations (a file that went through another editor /
+        # platform): the same panel
+        out["variants"] = {how: _load_text(_terminated(out["file"], how), "ts", "rt_t")
+                           for how in TERMINATIONS}
         return out
     if k == "ts_lines":
         return _load_ts_lines(case["lines"], "v")
     if k in ("arff_lines", "tsv_lines"):
-        return _load_flat_lines(case["lines"], k[:-6], "v")
+        return _load_flat_lines(case["lines"], k[:-6], "v", case.get("labelled", True))
     if k == "file":
         path = os.path.join(repo, DATA, case["dataset"], case["file"])
         lines, ncases = _excerpt(path, case["fmt"])
@@ -987,13 +1073,13 @@ def oracle(case, out):
             return "roundtrip-labels: none written, loaded %s" % ld["labels"]
         if ld["index"] != list(range(len(vals))):
             return "roundtrip-instance-order: index %s" % ld["index"]
-        return None
+        return _termination_clause(out)
     if k in ("ts_lines", "arff_lines", "tsv_lines"):
-        return None        # model verdict vs loader verdict: correspondence only
+        return _termination_clause(out)   # otherwise model verdict vs loader verdict (correspondence)
     if k == "file":
         if out["loaded"] is None and not out.get("relational"):
             return "bundled-file-does-not-load: %s %s" % (case["file"], out.get("load_err"))
-        return None
+        return _termination_clause(out)
     if k == "formats":
         if "err" in out:
             return "formats-loader-raised: %s" % out["err"]
@@ -1043,6 +1129,34 @@ def oracle(case, out):
     if k == "history":
         return _history_oracle(case, out)
     return "unknown-kind"
+
+
+def _termination_clause(out):
+    """the same lines, terminated / padded differently, parse to the same panel and labels"""
+    base = out.get("loaded")
+    for how, v in sorted((out.get("variants") or {}).items()):
+        got = v.get("loaded")
+        if (got is None) != (base is None):
+            return "termination-changes-the-parse: with `%s` the file is %s (%s), with a newline " \
+                   "after every line it is %s" % (
+                       how, "rejected" if got is None else "accepted", v.get("load_err"),
+                       "rejected" if base is None else "accepted")
+        if got != base:
+            what = "shape"
+            for key in ("labels", "rows", "columns", "index", "form", "ncols"):
+                if base.get(key) != got.get(key):
+                    what = key
+                    break
+            detail = ""
+            if what == "labels":
+                detail = ": labels %s vs %s" % (got["labels"][-3:], base["labels"][-3:])
+            elif what == "rows" and len(got["rows"]) == len(base["rows"]):
+                i = next(i for i, (x, y) in enumerate(zip(got["rows"], base["rows"])) if x != y)
+                detail = ": instance %d %s vs %s" % (i, str(got["rows"][i])[-60:],
+                                                     str(base["rows"][i])[-60:])
+            return "termination-changes-the-parse: with `%s` the %s differ from the file with a " \
+                   "newline after every line%s" % (how, what, detail)
+    return None
 
 
 def _summ(d):
@@ -1313,6 +1427,8 @@ def coq_case(case, out):
     if k == "ts_lines":
         return "CTsLines %s %s" % (_sl(case["lines"]), _impl_ts(out["loaded"]))
     if k == "arff_lines":
+        if not case.get("labelled", True):
+            return None                      # the model's .arff parser is the labelled one
         return "CArffLines %s %s" % (_sl(case["lines"]), _impl_flat(out["loaded"]))
     if k == "tsv_lines":
         return "CTsvLines %s %s" % (_sl(case["lines"]), _impl_flat(out["loaded"]))
